@@ -3,6 +3,7 @@ package unrestricted
 
 import (
 	"log"
+	"log/slog"
 	"os"
 	"os/exec"
 	"reflect"
@@ -28,11 +29,16 @@ func init() {
 	}
 
 	Symbols["log/log"] = map[string]reflect.Value{
+		"Default": reflect.ValueOf(log.Default),
 		"Fatal":   reflect.ValueOf(log.Fatal),
 		"Fatalf":  reflect.ValueOf(log.Fatalf),
 		"Fatalln": reflect.ValueOf(log.Fatalln),
 		"New":     reflect.ValueOf(log.New),
 		"Logger":  reflect.ValueOf((*log.Logger)(nil)),
+	}
+
+	Symbols["log/slog/slog"] = map[string]reflect.Value{
+		"NewLogLogger": reflect.ValueOf(slog.NewLogLogger),
 	}
 
 	Symbols["github.com/traefik/yaegi/stdlib/unrestricted/unrestricted"] = map[string]reflect.Value{
